@@ -144,6 +144,27 @@ def unpackB (raw : Bytes) : Outcome Int :=
   | [x] => .ok (x : Int)
   | _ => .escape .structError
 
+/-- big-endian value of four bytes -/
+def be32 : Bytes → Nat
+  | [a, b, c, d] => a * 16777216 + b * 65536 + c * 256 + d
+  | _ => 0
+
+/-- `struct.unpack(">I", raw)[0]`: exactly four bytes, big-endian -/
+def unpackI (raw : Bytes) : Outcome Int :=
+  if raw.length = 4 then .ok ((be32 raw : Nat) : Int) else .escape .structError
+
+/-- `f.read(n)` on a byte source: the next `n` bytes and the rest (`n < 0`: everything) -/
+def readN (src : Bytes) (n : Int) : Bytes × Bytes :=
+  if n < 0 then (src, []) else (src.take n.toNat, src.drop n.toNat)
+
+/-- results of a method whose `raise` statements carry information: a normal return, `StopIteration`,
+    or the library's data error with its record number and context bytes -/
+inductive Signal (α : Type)
+  | ret (a : α)
+  | stop
+  | libError (recno : Int) (ctx : Bytes)
+  deriving Repr
+
 /-- `f'{i:0w}'` -/
 def fmtIntW (w : Nat) (i : Int) : Text := fmtInt w i
 
